@@ -2,6 +2,7 @@ package simrt
 
 import (
 	"fmt"
+	"os"
 	"reflect"
 	"sort"
 )
@@ -51,6 +52,22 @@ func SetMapOrder(p MapPolicy, seed uint64) {
 
 //go:norace
 func MapOrder() MapPolicy { return mapPolicy }
+
+// The order in which maps are walked while packages INITIALISE (tables built by ranging over a map in an init
+// function or a package-level variable) is fixed for the life of the process. Go would pick it at random per
+// process; here the driver picks it per worker process (VERIF_INIT_MAPORDER=<policy>:<seed>; canonical when
+// unset, as in the pristine reference processes), so that a result that depends on it differs between processes
+// in a replayable way.
+func init() {
+	v := os.Getenv("VERIF_INIT_MAPORDER")
+	if v == "" {
+		return
+	}
+	var p, seed uint64
+	if _, err := fmt.Sscanf(v, "%d:%d", &p, &seed); err == nil && p <= uint64(Shuffled) {
+		SetMapOrder(MapPolicy(p), seed)
+	}
+}
 
 func splitmix(x uint64) uint64 {
 	x += 0x9e3779b97f4a7c15
